@@ -643,9 +643,11 @@ def run_threaded_stream(kind, seed, stream, cuts, version="2.2"):
     mgt.select = S.FakeSelect()
     try:
         if kind == "serial":
-            gw = mgs.SerialGateway("/dev/fake", protocol_version=version, reconnect_timeout=50.0, timeout=1.0)
+            gw = mgs.SerialGateway("/dev/fake", protocol_version=version, reconnect_timeout=1e6, timeout=1.0)
         else:
-            gw = mgt.TCPGateway("10.0.0.1", protocol_version=version, reconnect_timeout=50.0)
+            # no version probes during the stream: the fake device would splice its answer into a half-delivered line,
+            # which no device does (a byte-wise delivery of a long stream takes more than 50 virtual seconds)
+            gw = mgt.TCPGateway("10.0.0.1", protocol_version=version, reconnect_timeout=1e6)
         made = []
         gw.on_conn_made = lambda *a: made.append(1)
         gw.start()
